@@ -382,6 +382,11 @@ _SKIP_MODULES = ('exabgp.logger', 'exabgp.environment', 'exabgp.vendoring', 'exa
 # the API envelope counter: legitimately history dependent and canonicalised out of every observation
 # (and RIB._cache: the Adj-RIB-In tables enter canon through rib_snapshot(), which is cheaper and complete)
 _NOT_CANON = ('exabgp.reactor.api.response.json:JSON._count', 'exabgp.rib:RIB._cache')
+
+
+def _not_canon(key: str) -> bool:
+    """the envelope counter of the API encoders (whatever it is called) and the table of RIBs"""
+    return key in _NOT_CANON or (key.startswith('exabgp.reactor.api.response.') and 'count' in key.rsplit('.', 1)[-1].lower())
 _SCALARS = (int, str, bytes, bool, float, type(None), tuple, frozenset)
 _MAXD = 4
 
@@ -700,7 +705,7 @@ class Harness:
         # the Adj-RIB-In tables hang off RIB._cache: new_run_objects() empties them, checkpoints save them through rib_roots()
         hot.discard('exabgp.rib:RIB._cache')
         self.hot = sorted(hot)
-        self.canon_keys = [k for k in self.hot if k not in _NOT_CANON]
+        self.canon_keys = [k for k in self.hot if not _not_canon(k)]
         self.calibration = {k: sorted(v) for k, v in sorted(per_letter.items())}
         left = self.snap.changed()
         if left:
@@ -864,7 +869,7 @@ class Harness:
         keys = list(roots)
         # roots an already decoded object may read when it is rendered: every hot root but the attribute-block cache (only
         # read by unpack, and rewritten by nearly every letter) and the API counter
-        read_keys = [k for k in self.hot if k not in ATTR_CACHE_KEYS and k not in _NOT_CANON]
+        read_keys = [k for k in self.hot if k not in ATTR_CACHE_KEYS and not _not_canon(k)]
         ribs_before = rib_snapshot(w)
         # the objects the prefix returned, to depth 7 (Update -> UpdateCollection -> AttributeCollection -> dict -> Attribute -> fields)
         # (the session objects every message points at are not part of a message)
